@@ -361,7 +361,7 @@ type demand struct {
 	tail bool
 }
 
-const demandPrelude = `local emit, errclass, mark = emit, errclass, mark
+const demandPrelude = `local emit, errclass, mark, goresume, gothread = emit, errclass, mark, goresume, gothread
 local function rec(n) if n <= 0 then return 0 end return 1 + rec(n - 1) end
 local mutA, mutB
 function mutA(n) if n <= 0 then return 0 end local r = mutB(n - 1) return r + 1 end
@@ -484,6 +484,24 @@ local function threegen()
   local ok, r2 = coroutine.resume(C, 20)
   return tostring(r1) .. "." .. tostring(ok) .. "." .. tostring(r2) .. "." .. coroutine.status(C)
 end
+local function godead(d, k)
+  -- the Go API on a coroutine that has ended, after later coroutines have taken call-frame segments from the pool
+  if d > 0 then local r = godead(d - 1, k) return r end
+  local function body(a) local b = coroutine.yield(a + 1) return b * 2 end
+  local co = gothread() -- LState.NewThread: the Go API starts such a thread with the function it is given
+  local s1, v1 = goresume(co, body, 5)
+  local s2, v2 = goresume(co, body, 7)
+  if s1 ~= "yield" or s2 ~= "ok" then error(tostring(v1) .. tostring(v2), 0) end
+  local later = {}
+  for i = 1, 3 do
+    later[i] = coroutine.create(function(n) coroutine.yield(rec(n)) end)
+    local ok, e = coroutine.resume(later[i], k)
+    if not ok then error(e, 0) end
+  end
+  local s3 = goresume(co, body, 1)
+  local s4 = goresume(co, body, 1)
+  return s1 .. tostring(v1) .. s2 .. tostring(v2) .. s3 .. s4 .. coroutine.status(co) -- (what became of the later ones depends on the limits)
+end
 local function xpover(n)
   local t = mkt(n)
   local ok, e = xpcall(function() return select('#', unpack(t)) end, function(m) return "H" end)
@@ -516,7 +534,9 @@ func (e *Engine) demandProgram(t *core.Tape) (string, int) {
 	maxArg := 0
 	for i := 0; i < n; i++ {
 		id := fmt.Sprintf("d%d", i)
-		switch t.Choose(27) {
+		switch t.Choose(28) {
+		case 27:
+			fmt.Fprintf(&sb, "run(%q, godead, %d, %d)\n", id, t.Choose(20), t.Choose(12))
 		case 26:
 			fmt.Fprintf(&sb, "run(%q, wrapsweep, %d)\n", id, t.Choose(40))
 		case 24:
@@ -664,6 +684,38 @@ func runUnder(proto *lua.FunctionProto, c cfgT, maxSteps int64) *progRun {
 			return 1
 		}
 		L.Push(lua.LString("NONSTRING"))
+		return 1
+	}))
+	// goresume(co, f, ...): LState.Resume through the Go API; returns "yield"/"ok" and the values, or "error"
+	L.SetGlobal("goresume", L.NewFunction(func(L *lua.LState) int {
+		th, _ := L.Get(1).(*lua.LState)
+		fn, _ := L.Get(2).(*lua.LFunction)
+		if th == nil || fn == nil {
+			L.RaiseError("goresume: thread and function expected")
+		}
+		var args []lua.LValue
+		for i := 3; i <= L.GetTop(); i++ {
+			args = append(args, L.Get(i))
+		}
+		state, err, vals := L.Resume(th, fn, args...)
+		switch state {
+		case lua.ResumeError:
+			L.Push(lua.LString("error"))
+			L.Push(lua.LString(fmt.Sprint(err)))
+			return 2
+		case lua.ResumeYield:
+			L.Push(lua.LString("yield"))
+		default:
+			L.Push(lua.LString("ok"))
+		}
+		for _, v := range vals {
+			L.Push(v)
+		}
+		return 1 + len(vals)
+	}))
+	L.SetGlobal("gothread", L.NewFunction(func(L *lua.LState) int {
+		th, _ := L.NewThread()
+		L.Push(th)
 		return 1
 	}))
 	L.SetGlobal("mark", L.NewFunction(func(L *lua.LState) int {
